@@ -62,6 +62,7 @@ def run_interp_check(pid, gen, fields, counts, tier, seed, rule, design_ref, ext
         results = common.run_driver(driver, os.path.join(scratch, "cases.sx"))
         known, _ = common.known_findings(pid)
         dropped, compared, mism, panics, impl_only = {}, 0, 0, 0, 0
+        known_hits = {}
         for c, line in zip(cases, results):
             impl = c["impl"]
             m = parse_model(line)
@@ -89,6 +90,14 @@ def run_interp_check(pid, gen, fields, counts, tier, seed, rule, design_ref, ext
                 continue
             if impl_oracle:
                 for why in impl_oracle(c):
+                    if isinstance(why, tuple):
+                        # (message, id of a known_findings.txt entry): a recorded finding, reported as such while it is listed
+                        why, fid = why
+                        if fid in {k["id"] for k in known}:
+                            known_hits[fid] = known_hits.get(fid, 0) + 1
+                            if known_hits[fid] == 1:
+                                res.known(fid, "%s :: %s" % (fid, why))
+                            continue
                     mism += 1
                     if len(res.violations) < 8:
                         res.violation({"property": pid, "kind": "law violated by the implementation alone: " + why,
@@ -170,7 +179,7 @@ def run_interp_check(pid, gen, fields, counts, tier, seed, rule, design_ref, ext
                 "Go runtime behaviour modelled not verified: reflect, append growth (formula validated against the toolchain), "
                 "strconv/fmt float routines (oracle tables filled from the real functions)"],
             "evaluations": len(cases), "compared": compared, "judged_on_the_implementation_alone": impl_only, "distinct_nontrivial": meta["distinct_nontrivial"],
-            "dropped_outside_fragment": dropped, "generated_programs_rejected_by_the_parser": meta.get("parse_failures", 0), "mismatches": mism, "implementation_panics": panics,
+            "known_finding_hits": known_hits, "dropped_outside_fragment": dropped, "generated_programs_rejected_by_the_parser": meta.get("parse_failures", 0), "mismatches": mism, "implementation_panics": panics,
             "compared_fields": list(fields), "rule": rule, "directed_expectations_checked": exp_checked, "constructs": meta["constructs"],
             "samples": [{"src": c["src"][:600], "impl": c["impl"]} for c in cases[len(cases) // 2: len(cases) // 2 + 2]],
             "make_ok": ok_make,
